@@ -84,7 +84,7 @@ def override_level(ctx, net, mlvl):
     return s_ite(L < 0, 0, s_ite(L > 4, 4, L))
 
 
-def o1_route_step(ctx, lx, ld, custom, multicast, mlvl=None):
+def o1_route_step(ctx, lx, ld, custom, multicast, mlvl=None, twice=False):
     from circuitpython_nrf24l01.network.structs import RF24NetworkHeader
     clock = fresh_env(ctx)
     x = sym_addr(ctx, "X", lx)
@@ -122,6 +122,20 @@ def o1_route_step(ctx, lx, ld, custom, multicast, mlvl=None):
     # "one that the intended next hop listens on and that no other node listens on" must survive traffic: after its own
     # transmission X is back on exactly its reference addresses
     listeners_ok(ctx, radio, x, multicast, prefix, suffix, "after the routing step", p0)
+    if twice:
+        # ... and a second message to another destination is routed just as well, and leaves the listeners just as intact
+        d2 = sym_addr(ctx, "E", ctx.choice("second_dest_level", 5))
+        ctx.assume(s_and(d2 != x, d2 != d))
+        s1 = len(radio.sent)
+        ok2 = net.send(RF24NetworkHeader(d2, 0), body)
+        ctx.check(ok2 == True, "a second send() succeeds")  # noqa: E712
+        sent2 = radio.sent[s1:]
+        ctx.check(len(sent2) == 1, "second message: exactly one frame is transmitted")
+        if len(sent2) == 1:
+            nh2 = NS.next_hop(x, d2)
+            want2 = NS.phys(nh2, s_ite(NS.is_descendant(d2, x), 5, NS.child_index(x)), False, prefix, suffix)
+            ctx.check(bytes_eq(sent2[0]["addr"], want2), "second message: TX address = the address the next hop listens on")
+        listeners_ok(ctx, radio, x, multicast, prefix, suffix, "after the second routing step", p0)
     ctx.reached()
 
 
@@ -201,6 +215,9 @@ def jobs(tier):
                 for mc in ((True,) if tier == "quick" else (True, False)):
                     out.append(Job("O1-routing-step", o1_route_step, dict(lx=lx, ld=ld, custom=custom, multicast=mc),
                                    cost=(1 + lx) * (1 + ld) * (4 if custom else 1)))
+            if (lx + ld) % 2 == 0 or tier != "quick":
+                out.append(Job("O1-two-routing-steps", o1_route_step, dict(lx=lx, ld=ld, custom=False, multicast=True, twice=True),
+                               cost=(1 + lx) * (1 + ld) * 3))
             # the multicast_level override moves pipe 0 to another level and must leave unicast routing alone
             out.append(Job("O1-routing-step", o1_route_step, dict(lx=lx, ld=ld, custom=False, multicast=True, mlvl="sym"),
                            cost=(1 + lx) * (1 + ld) * 2))
